@@ -5,7 +5,7 @@ from __future__ import annotations
 
 import random
 
-ATOM = {"SP": " ", "NL": "\n", "NWS": "<nowiki />", "SUP2": "\u00b2", "ARD3": "\u0663"}
+ATOM = {"SP": " ", "NL": "\n", "TAB": "\t", "NWS": "<nowiki />", "SUP2": "\u00b2", "ARD3": "\u0663"}
 LITERALS = ["{{{", "}}}", "[[:Template:", "]]", "{{", "}}"]
 
 
@@ -117,7 +117,7 @@ def tokenize(s: str) -> list[str]:
                 break
         else:
             ch = s[i]
-            out.append("SP" if ch == " " else "NL" if ch == "\n" else ch)
+            out.append("SP" if ch == " " else "NL" if ch == "\n" else "TAB" if ch == "\t" else ch)
             i += 1
     return out
 
@@ -153,6 +153,40 @@ def T(s):
 
 
 PARAMS = [["1"], ["2"], ["x"], ["y"], ["SP", "x"], ["1", "SP"]]
+KEYS = [["x"], ["y"], ["1"], ["2"], ["SP", "x", "SP"], ["NL", "y"], ["1", "SP"], ["SP", "2", "NL"], ["x", "SP"]]
+
+# vocabulary of parameter names / argument keys used by rcontent; None = the lists above.
+# name_vocab() gives one with multi-word names (interior runs of blanks) - see Gen_Transclusion, family N.
+_VOCAB = None
+RUNS = [["SP"], ["SP", "SP"], ["TAB"], ["NL"], ["SP", "NL", "SP"], ["SP", "SP", "SP"]]
+PADS = [([], []), (["SP"], []), ([], ["NL"]), (["NL"], ["SP"]), (["TAB"], ["TAB"])]
+
+
+def name_vocab(rng):
+    """Names for one (library, pages) group.  `house` groups write the two-word name f_n with ONE interior
+    run everywhere (padding varies): every reading of name equality agrees on them.  Mixed groups vary the
+    run between the places where the name is written."""
+    house = rng.random() < 0.6
+    runs = [rng.choice(RUNS)] if house else RUNS
+    two = []
+    for r in runs:
+        for a, b in PADS if house else PADS[:3]:
+            two.append(a + ["f"] + r + ["n"] + b)
+    others = [["f", "n"], ["x"], ["1"], ["f"] + runs[0] + ["n"] + runs[-1] + ["g"]]
+    return {"params": two + others, "keys": two + others + [["SP", "1", "NL"]], "house": house}
+
+
+class vocab:
+    def __init__(self, v):
+        self.v = v
+
+    def __enter__(self):
+        global _VOCAB
+        self.old, _VOCAB = _VOCAB, self.v
+
+    def __exit__(self, *a):
+        global _VOCAB
+        _VOCAB = self.old
 
 
 def _strip_nl(content):
@@ -179,7 +213,7 @@ def rcontent(rng, depth, callable_names, in_body, budget, nolink=False):
             if t:
                 c.append(T(t))
         elif r < 0.6 and in_body:
-            name = rng.choice(PARAMS)
+            name = rng.choice(_VOCAB["params"] if _VOCAB else PARAMS)
             if rng.random() < 0.4:
                 c.append({"k": "p", "name": name, "hasDef": True, "def": rcontent(rng, depth - 1, callable_names, in_body, budget)})
             else:
@@ -201,7 +235,7 @@ def rcontent(rng, depth, callable_names, in_body, budget, nolink=False):
                 if rng.random() < 0.5:
                     args.append({"named": False, "key": [], "val": v})
                 else:
-                    key = rng.choice([["x"], ["y"], ["1"], ["2"], ["SP", "x", "SP"], ["NL", "y"], ["1", "SP"], ["SP", "2", "NL"], ["x", "SP"]])
+                    key = rng.choice(_VOCAB["keys"] if _VOCAB else KEYS)
                     args.append({"named": True, "key": [T(key)], "val": v})
             c.append({"k": "c", "name": nm, "args": args})
         elif r < 0.92:
